@@ -97,8 +97,13 @@ func (set *SortedSet) GetRandom(count int) []MemberParam {
 
 	members := set.GetAll()
 
-	if internal.AbsInt(count) >= len(members) {
+	// A positive count asks for distinct members, so the whole set is the most that can be returned.
+	// A negative count allows repeats and always yields exactly that many members.
+	if count >= 0 && count >= len(members) {
 		return members
+	}
+	if len(members) == 0 {
+		return res
 	}
 
 	var n int
